@@ -3,6 +3,7 @@ import ScrapliModel.Lemmas.Framed
 import ScrapliModel.Props.C08
 import ScrapliModel.Generated.BodiesResponse
 import ScrapliModel.Lemmas.BodiesResponse
+import ScrapliModel.Lemmas.GoSem
 /-!
 # C02 — NETCONF replies decode to exactly the payload, or are explicitly failed
 
@@ -423,5 +424,90 @@ theorem generated_record1dot1Chunks_eq (fuel : Nat) (raw r0 : Bytes)
 /-- the fuel hypothesis is satisfiable and the statement is not vacuous: one chunk `abc` -/
 example : Gen.Bodies.Response.record1dot1Chunks 40 [35, 51, 10, 97, 98, 99, 10, 35, 35] []
     = some (none, [97, 98, 99]) := by decide +kernel
+
+/-- the `range` loop of `util.ByteContainsAny` as translated from the current source is `containsAny`
+(the failure-marker test of `NetconfResponse.Record`), for every buffer and every marker list -/
+theorem generated_byteContainsAny_eq (b : Bytes) (l : List Bytes) :
+    Gen.Bodies.Response.byteContainsAny b l = containsAny l b := by
+  unfold Gen.Bodies.Response.byteContainsAny Go.forRange containsAny
+  rw [Go.forRangeFrom_find (fun ss => isInfix ss b) (fun _ => true)]
+  induction l with
+  | nil => simp
+  | cons a l ih =>
+    simp only [List.find?, List.any]
+    cases h : isInfix a b <;> simp [ih]
+
+/-- the version string of a response -/
+def verStr : Version → Bytes
+  | .v10 => Gen.Response.v1Dot0
+  | .v11 => Gen.Response.v1Dot1
+
+set_option linter.unusedSimpArgs false in
+/-- the bodies of `(*NetconfResponse).Record` and `record1dot1` as the translator renders them from
+the current source (the two regex searches are parameters, the time stamps are declared not
+modelled), on a fresh response (`Result == ""`, `Failed == nil`), for both versions, every marker
+list, every reply and enough fuel for the chunk loops: `RawResult` is the reply, `Result` is the
+model's decoded result, and `Failed` is set exactly when the model says failed — a marker in the raw
+bytes, a marker in the decoded result, or (1.1) a framing error, in which case `Result` stays empty -/
+theorem generated_Record_eq (fuel : Nat) (errText : Go.Error → Bytes) (input : Bytes) (fwc : List Bytes)
+    (findErr : Bytes → Bytes) (findAllErr : Bytes → List Bytes) (raw0 : Bytes) (em wm : List Bytes)
+    (v : Version) (b : Bytes) (hf : b.length + Gen.Response.maxChunkSizeCharLen + 2 ≤ fuel) :
+    ∃ f e w, Gen.Bodies.Response.record fuel errText input fwc (verStr v) findErr findAllErr raw0 [] none em wm b
+        = some (b, (record fwc v b).result, f, e, w) ∧ f.isSome = (record fwc v b).failed := by
+  have hne : (Gen.Response.v1Dot1 == Gen.Response.v1Dot0) = false := by decide
+  unfold Gen.Bodies.Response.record
+  simp only [generated_byteContainsAny_eq, generated_record1dot0_eq]
+  have hrec := generated_record1dot1Chunks_eq fuel b [] hf
+  -- the severity loop always runs to its end
+  have hloop : ∀ (st : List Bytes × List Bytes), ∃ st', Go.forRange (ρ := Option (Bytes × Bytes × Option (Bytes × Bytes × Bytes) × List Bytes × List Bytes))
+      (findAllErr b) st (fun _ rpcerr (errorMessages, warningMessages) => (
+        let errStr := rpcerr
+        let (errorMessages, warningMessages) := if (isInfix ([60,101,114,114,111,114,45,115,101,118,101,114,105,116,121,62,101,114,114,111,114,60,47,101,114,114,111,114,45,115,101,118,101,114,105,116,121,62] : Bytes) errStr) then (
+            let errorMessages := (errorMessages ++ [errStr])
+            (errorMessages, warningMessages))
+          else if (isInfix ([60,101,114,114,111,114,45,115,101,118,101,114,105,116,121,62,119,97,114,110,105,110,103,60,47,101,114,114,111,114,45,115,101,118,101,114,105,116,121,62] : Bytes) errStr) then (
+            let warningMessages := (warningMessages ++ [errStr])
+            (errorMessages, warningMessages))
+          else (
+            (errorMessages, warningMessages))
+        .next (errorMessages, warningMessages))) = .fin st' := by
+    intro st
+    apply Go.forRangeFrom_total
+    intro i x s
+    exact ⟨_, rfl⟩
+  cases v with
+  | v10 =>
+    by_cases hc : containsAny fwc b = true
+    · obtain ⟨⟨e, w⟩, hl⟩ := hloop (em, wm)
+      simp only [hc, if_true, hl, verStr, beq_self_eq_true, record]
+      refine ⟨_, e, w, rfl, ?_⟩
+      simp
+    · have hc' : containsAny fwc b = false := by simpa using hc
+      simp only [hc', Bool.false_eq_true, if_false, verStr, beq_self_eq_true, if_true, record]
+      refine ⟨_, em, wm, rfl, ?_⟩
+      cases containsAny fwc (decode10 b) <;> simp
+  | v11 =>
+    have h11 : ∀ f0 : Option (Bytes × Bytes × Bytes),
+        Gen.Bodies.Response.record1dot1 fuel errText input b [] f0
+          = some (match decode11 b with
+              | .ok res => (res, f0)
+              | .error _ => ([], some (input, [], errText (some "errNetconf1Dot1Error")))) := by
+      intro f0
+      unfold Gen.Bodies.Response.record1dot1
+      rw [hrec]
+      cases decode11 b <;> simp
+    by_cases hc : containsAny fwc b = true
+    · obtain ⟨⟨e, w⟩, hl⟩ := hloop (em, wm)
+      simp only [hc, if_true, hl, verStr, hne, Bool.false_eq_true, if_false, beq_self_eq_true, h11, record]
+      cases hd : decode11 b with
+      | ok res => exact ⟨_, e, w, rfl, by simp⟩
+      | error err => exact ⟨_, e, w, rfl, by simp⟩
+    · have hc' : containsAny fwc b = false := by simpa using hc
+      simp only [hc', Bool.false_eq_true, if_false, verStr, hne, beq_self_eq_true, if_true, h11, record]
+      cases hd : decode11 b with
+      | ok res =>
+        refine ⟨_, em, wm, rfl, ?_⟩
+        cases hca : containsAny fwc res <;> simp [hca]
+      | error err => exact ⟨_, em, wm, rfl, by simp⟩
 
 end Scrapli.Netconf.C02
